@@ -134,7 +134,8 @@ def m_clen(rq, r):
         ('1' + '0' * 19, 'err'), ('1e3', 'err'), (' %d ' % n, 'any'),
         ('%d, %d' % (n, n), 'err'), ('0x10', 'err'), ('+%d' % n, 'any'),
         (str(n) + '\x0b', 'any'), ('\xb2', 'err'), ('12.0', 'err'),
-        (str(2 ** 31 + 7), 'any')])
+        (str(2 ** 31 + 7), 'any'), ('999999999999999', 'any'),
+        (str(2 ** 63 - 1), 'any'), (str(2 ** 40), 'any')])
     set_header(rq, 'Content-Length', v)
     rq['_half_close'] = True
     return e
@@ -374,7 +375,11 @@ def m_structure(rq, r):
         rq['body'] = b.replace(b'encoding="utf-8"', b'encoding="utf-16"')
         e = 'any'
     elif k == 'declbad':
-        rq['body'] = b.replace(b'encoding="utf-8"', b'encoding="klingon"')
+        rq['body'] = b.replace(b'encoding="utf-8"', b'encoding="%s"' %
+                               r.choice([b'klingon', b'klingon', b'cp932',
+                                         b'euc-jp', b'utf-7', b'utf-32',
+                                         b'latin-1', b'ascii', b'',
+                                         b'big5']))
         e = 'any'
     elif k == 'extraattr':
         rq['body'] = b.replace(b'<MESSAGE ', b'<MESSAGE FOO="bar" ')
